@@ -14,6 +14,29 @@ pub enum Verdict {
     Known,
 }
 
+static GLOBAL: std::sync::atomic::AtomicPtr<Report> = std::sync::atomic::AtomicPtr::new(std::ptr::null_mut());
+/// Index of the case to resume from if the shard has to exit because a job did not return.
+pub static RESUME_FROM: std::sync::atomic::AtomicU64 = std::sync::atomic::AtomicU64::new(0);
+
+/// Register the shard's report so that the emergency exit path (a job that never returns leaves
+/// parked threads behind: the process must exit) can add the witness and print everything
+/// accumulated so far.
+pub fn set_global(r: &mut Report) {
+    GLOBAL.store(r as *mut Report, std::sync::atomic::Ordering::SeqCst);
+}
+
+/// Only for the emergency exit path: the engines are not touching the report at that moment and
+/// the process exits right after.
+#[allow(clippy::mut_from_ref)]
+pub fn global<'a>() -> Option<&'a mut Report> {
+    let p = GLOBAL.load(std::sync::atomic::Ordering::SeqCst);
+    if p.is_null() {
+        None
+    } else {
+        Some(unsafe { &mut *p })
+    }
+}
+
 pub struct Report {
     pub prop: String,
     pub cases: u64,
@@ -162,8 +185,16 @@ impl Report {
     }
 
     pub fn finish(&self) {
+        self.finish_with(None)
+    }
+
+    pub fn finish_with(&self, resume_from: Option<u64>) {
         use std::io::Write;
-        let s = serde_json::to_string(&self.to_json()).unwrap();
+        let mut j = self.to_json();
+        if let Some(r) = resume_from {
+            j["resume_from"] = serde_json::json!(r);
+        }
+        let s = serde_json::to_string(&j).unwrap();
         let out = std::io::stdout();
         let mut out = out.lock();
         writeln!(out, "REPORT {s}").unwrap();
